@@ -82,7 +82,8 @@ def check(ctx):
     model = CacheModel(repo, max_paths=max(ctx.max_paths, 65536))
     fi = model.fi
     ctx.unit('functions')
-    r = check_protocol(ctx, model, 'VA')
+    # Round 7: 'T' -- whatever the cache contains, a file that does not import (torn, foreign) is regenerated, not fatal
+    r = check_protocol(ctx, model, 'VAT')
     seen = set()
 
     def once(rule, st):
@@ -365,7 +366,7 @@ def check_templates_closed(ctx, repo):
             free -= block_assigned          # names bound by the blocks spliced into the driver
         st = 'template %s@%s' % (t.func.qual.split('.')[-1], 'driver ' + ','.join(t.defines()) if is_driver else 'block')
         if free:
-            ctx.violation(rule, t.func, st, 'free names %s are neither parameters, builtins, driver locals nor imported by the generated module: the generated code depends on something outside its own text' % sorted(free), t.lineno, clause='E')
+            ctx.violation(rule, t.func, st, 'free names %s are neither parameters, builtins, driver locals nor imported by the generated module: the generated code depends on something outside its own text -- or on a name that other generated text binds in the module namespace, which same-named classes share and the next definition rebinds under the functions already installed' % sorted(free), t.lineno, clause='E', witness=is_driver)
         else:
             ctx.holds(rule, t.func, st, 'closed over parameters, builtins and the generated module\'s own imports %s' % sorted(imported | own_imports), t.lineno, clause='E')
     ctx.unit('templates', n)
